@@ -644,7 +644,15 @@ class TCPHiddenServiceEndpoint(object):
                         group_readable=self.group_readable,
                         version=self.version,
                     )
-            self.hiddenservice = yield create_d
+            try:
+                self.hiddenservice = yield create_d
+            except Exception:
+                # the service could not be created (or its descriptor
+                # never made it): don't leave our local listener open
+                port = self.tcp_listening_port
+                self.tcp_listening_port = None
+                yield defer.maybeDeferred(port.stopListening)
+                raise
 
         else:
             if not self.ephemeral:
